@@ -65,6 +65,7 @@ def _par_work(i):
     import z3 as _z3
     from mirsmt import witness as _w
     ctx, fn, items = _PG['ctx'], _PG['fn'], _PG['items']
+    ctx.interps.clear()            # (forked copy) statistics of earlier phases belong to the parent
     rep = common.Report(_PG['pid'], 'quick', 0)
 
     def go():
